@@ -9,6 +9,10 @@ CLAIMS = {
          'CommonLoop deferred tasks under CBMC contracts (one thread visible): id spaces (even/odd, never 0) over the full 64-bit domain; cancel routed by parity with the cross-thread queue only touched under lock_; removal keeps the other tasks in submission order; runInLoop/runNext append at the back under the returned id and leave a wake-up committed; batch taken and wake-up acknowledged in one critical section; each popped callable invoked exactly once outside the lock.',
          'Trusted: printer, CBMC, container/function/string models, callback stub (havoc under the queue invariant), eventfd as ghost token counter. Queue-content targets are bounded to 64 items. Interleavings, thread identity and shutdown draining are not decided.',
          'CBMC function/loop contracts with ghost lock state on mechanically extracted C', '6 C01'),
+ 'C02': ('other',
+         'CommonLoop timers under unbounded CBMC contracts: a callback runs only at or after its deadline; one-shot timers leave the heap and release token and record before their callback; persistent timers are re-armed at deadline + interval (no period skipped, no restart from now); the heap is whole whenever user code runs; enable computes the deadline from a clock reading taken during the call; disabling with a stale token is a no-op, a live timer leaves the heap at once and is freed later.',
+         'Trusted: printer, CBMC, std heap algorithms as typestate stubs, opaque Cabinet/ObjectPool, clock stub, callback stub. Heap content is abstract; TimerEventImpl and sleep time are not covered.',
+         'CBMC function/loop contracts with heap typestate ghost on mechanically extracted C', '6 C02'),
  'C05': ('other',
          'ThreadPool under CBMC contracts (one thread visible): guarded-by obligations (stop flag, idle counter only under the pool mutex), worker loop (idle count restored on every path, stop flag checked after each wake-up, task body exactly once outside the lock between register/unregister, completion callback posted after the body), initialize (flag cleared before workers exist), priority-first FIFO pop and cancel over all priority levels (bounded domain).',
          'Trusted: printer, CBMC, opaque Cabinet/ObjectPool/std::set/std::thread stubs, one-thread view. Interleavings, liveness and WorkThread are not decided; queue targets bounded to 16 tasks per level.',
